@@ -1091,14 +1091,18 @@ func (r *Run) forStmt(s *ast.ForStmt, env *Env) ctl {
 	if s.Init != nil {
 		r.stmt(s.Init, e2)
 	}
-	for iter := 0; iter < 3; iter++ {
+	limit := 3
+	if r.W.Concrete {
+		limit = 512 // concrete values: the loop runs as written (a scan over a constant string), bounded by fuel
+	}
+	for iter := 0; iter < limit; iter++ {
 		if s.Cond != nil {
 			// A condition over concrete values is evaluated; otherwise the loop
 			// is unrolled by a count decision keyed by the condition.
 			if !r.cond(s.Cond, e2) {
 				break
 			}
-		} else if iter >= 2 {
+		} else if iter >= limit-1 {
 			r.problem(s.Pos(), "for{} without condition in emitter")
 			break
 		}
